@@ -194,7 +194,9 @@ def run(C, R):
                         continue
                     seen_c.add(c)
                     cq = F.fn(c) or {}
-                    if cq.get('kind') == 'fn' and not cq.get('reachable') and not cq.get('impl_adt') and CG.callers_of(c):
+                    # (a private free function, or a provided method of a private trait; not a trait impl such as Drop)
+                    if cq.get('kind') in ('fn', 'assoc') and not cq.get('reachable') and not cq.get('impl_trait') \
+                            and not (cq.get('impl_adt') in sems or cq.get('impl_adt') in rel) and CG.callers_of(c):
                         work_c.append(c)
                     else:
                         callers.append(c)
